@@ -194,7 +194,7 @@ def driver_leaves(kind, m, N, rnd):
     H = Fraction(1, 2)
     L = [mkf('L1'), mkf('L2'), mkf('L2sq'), mkf('Huber', (1, 2)), mkf('Huber', 1), mkf('IndBox', -1, 2),
          mkf('IndBox', (-1, 2), (1, 2)), mkf('IndNonneg'), mkf('IndZero'), mkf('IndBall2'), mkf('IndBallInf'),
-         mkf('Const', 0, 3), mkf('KL', v=alt(1, 2)), mkf('KLcc', v=alt(1, 2))]
+         mkf('Const', 0, 3), mkf('Const', 0, 0), mkf('KL', v=alt(1, 2)), mkf('KLcc', v=alt(1, 2))]
     if m == 1:
         L += [mkf('Linf'), mkf('IndBall1'), mkf('IndSum', 1), mkf('IndSimplex', 2), mkf('IndSimplex', 1)]
     if kind == 'power':
